@@ -104,6 +104,27 @@ pub fn run_c01(ctx: &mut Ctx) {
         ("(logand)", "()"),
         ("(* (q . 0x7fffffffffffffffffffffffffffffffffffffffffffffffffffffffffffffffff) (q . 10000000))", "()"),
         ("(x (q . 1))", "()"),
+        // zero-length atoms that are not the inline nil (empty substring views of heap atoms, empty concat) flowing
+        // into every operator that tests for nil or measures its operand
+        ("(i (substr (q . \"hello!\") (q . 2) (q . 2)) (q . 1337) (q . 42))", "()"),
+        ("(not (substr (q . \"hello!\") (q . 2) (q . 2)))", "()"),
+        ("(any (substr (q . \"hello!\") (q . 6) (q . 6)) (substr (q . 0x00ff) (q . 1) (q . 1)))", "()"),
+        ("(all (q . 1) (substr (q . \"hello!\") (q . 0) (q . 0)))", "()"),
+        ("(= (substr (q . \"hello!\") (q . 2) (q . 2)) ())", "()"),
+        ("(l (substr (q . \"hello!\") (q . 2) (q . 2)))", "()"),
+        ("(strlen (substr (q . \"hello!\") (q . 2) (q . 2)))", "()"),
+        ("(+ (substr (q . \"hello!\") (q . 2) (q . 2)) (q . 1))", "()"),
+        ("(sha256 (substr (q . \"hello!\") (q . 2) (q . 2)))", "()"),
+        ("(concat (substr (q . \"hello!\") (q . 2) (q . 2)) (concat))", "()"),
+        ("(i (concat (substr (q . \"hello!\") (q . 2) (q . 2)) (substr (q . \"hello!\") (q . 3) (q . 3))) (q . 1) (q . 2))", "()"),
+        ("(a (substr (q . \"hello!\") (q . 2) (q . 2)) (q . 77))", "()"),
+        ("(c (substr (q . \"hello!\") (q . 2) (q . 2)) (substr (q . \"hello!\") (q . 4) (q . 4)))", "()"),
+        ("(f (c (q . 1) (substr (q . \"hello!\") (q . 2) (q . 2))))", "()"),
+        ("(a (q . (+ 2 5)) (c (q . 1) (substr (q . \"hello!\") (q . 2) (q . 2))))", "()"),
+        ("(logand (substr (q . \"hello!\") (q . 2) (q . 2)))", "()"),
+        ("(substr (substr (q . \"hello!\") (q . 2) (q . 2)) () ())", "()"),
+        ("(> (substr (q . \"hello!\") (q . 2) (q . 2)) (q . -1))", "()"),
+        ("(>s (q . 1) (substr (q . \"hello!\") (q . 2) (q . 2)))", "()"),
         ("(a (q . 2) (q . 1))", "()"),
         ("(i (q . (1)) (q . 2) (q . 3))", "()"),
     ];
